@@ -183,14 +183,16 @@ where
         }
 
         let mut interpolated_state = from.clone();
-        for i in 1..=num_steps {
+        for i in 1..num_steps {
             let t = i as f64 / num_steps as f64;
             space.interpolate(from, to, t, &mut interpolated_state);
             if !vc.is_valid(&interpolated_state) {
                 return false;
             }
         }
-        true
+        // The end of the motion is `to` itself (interpolating at t = 1 may differ from it by
+        // rounding, and `to` is the state that gets stored).
+        vc.is_valid(to)
     }
 }
 
